@@ -558,6 +558,10 @@ func (e *env) runVariant(ops, calls []action, choice map[int]int, check bool) {
 				e.violation("stream.tamper/request-target", desc, "request names %s, the client dialled %s", sess.Req.Addr, peer.sess.Target)
 				return
 			}
+			if sess.Req.Username != peer.sess.Pair.Keys.UserName {
+				e.violation("stream.tamper/request-user", desc, "request attributed to %q, the key belongs to %q", sess.Req.Username, peer.sess.Pair.Keys.UserName)
+				return
+			}
 			if !deliver(sess.ReqPay, "HandleStream") {
 				return
 			}
